@@ -1,5 +1,5 @@
 (** Extraction of the runnable definitions (ExtrOcamlBasic only; N/Z/positive/nat stay inductive). *)
-From Bbolt Require Import Base Freelist.
+From Bbolt Require Import Base Freelist Spec Layout.
 Require Import ExtrOcamlBasic.
 Extraction Blacklist List String.
 Separate Extraction
@@ -7,4 +7,6 @@ Separate Extraction
   Freelist.step Freelist.fl_empty Freelist.cache Freelist.copyall Freelist.write_img Freelist.read_ids
   Freelist.free_count Freelist.pending_count Freelist.count Freelist.estimated_write_size
   Freelist.alloc_ok Freelist.free_ok Freelist.release_ok Freelist.rollback_ok Freelist.serial_ok
-  Freelist.pend_pairs Freelist.release_pending_gen.
+  Freelist.pend_pairs Freelist.release_pending_gen
+  Spec.exec Spec.resolve Spec.key_n Spec.listing Spec.keys_sorted
+  Layout.dec_db Layout.dec_with_meta Layout.accounted Layout.page_ids Layout.nodupb Layout.freelist_ids Layout.validate_at Layout.choose_meta.
